@@ -430,19 +430,95 @@ Theorem C08_history_wf_text : forall ops t t',
 Proof. exact history_WF. Qed.
 Print Assumptions C08_history_wf_text.
 
-(* the round trip of edited documents, GIVEN the WF backbone's print/parse theorem (eng-c14's
-   `WF_print_parse`, an explicit premise here until it exists): the printed text of the edited tree
-   parses, and to the content the reference computes *)
-Theorem C08_text_roundtrip :
-  (forall t, WF t -> exists d, parse_document (display_document t REmpty) = POk d /\ abs (doc_root d) = abs t) ->
-  forall ops t t', WF t -> apply_seq ops t = Some t' -> history_side ops t = true ->
+(* ---- the round trip of edited documents, CLOSED against the WF backbone (Props/WFbackbone.v) ----
+   The backbone's `WF_print_parse` concludes `abs_doc d = abs_doc_of t` (Spec/Defs.v trees of data).  That is
+   not `abs (doc_root d) = abs t`: `abs` keeps the storage order of every table, while the text of a standard
+   table has all its key/value lines in front of its sub-tables (ex_roundtrip_exact_refuted below: a value
+   inserted behind `[t]` is printed in front of it and parses back in front of it).  The closed statement is
+   about the DATA (Spec/Syntax.v `dval`; kinds and the inline / dotted flags forgotten on both sides):
+     data_of x     the data of a plain tree in storage order          C08_bridge_parsed:  = tree_dval (abs_doc d)
+     text_data x   the same, each standard table key/value lines first, empty arrays of tables / placeholders
+                   dropped                                            C08_bridge_printed: = tree_dval (abs_doc_of t)
+   and `lines_first x` decides that the two coincide (C08_lines_first). *)
+From TV Require Import Spec.Defs Spec.Syntax Proofs.GrammarBase Proofs.WFTree Proofs.WFReparse Proofs.WFParseTop Proofs.WFReplay Proofs.EditTextClose.
+
+Theorem C08_bridge_parsed : forall d, tree_dval (abs_doc d) = data_of (abs (doc_root d)).
+Proof. exact data_of_parsed. Qed.
+Print Assumptions C08_bridge_parsed.
+
+Theorem C08_bridge_printed : forall t, tree_dval (abs_doc_of t) = text_data (abs t).
+Proof. exact text_data_abs_doc_of. Qed.
+Print Assumptions C08_bridge_printed.
+
+Theorem C08_lines_first : forall t, lines_first (abs t) = true -> text_data (abs t) = data_of (abs t).
+Proof. exact lines_first_data. Qed.
+Print Assumptions C08_lines_first.
+
+(* no premise but WF of the start, the operations' own side conditions: the text printed after the history
+   parses, and to the data of the edited tree = the data the reference computes *)
+Theorem C08_text_roundtrip_closed : forall ops t t',
+  WF t -> apply_seq ops t = Some t' -> history_side ops t = true ->
   exists d, parse_document (display_document t' REmpty) = POk d
-            /\ abs (doc_root d) = abs t' /\ abs (doc_root d) = spec_apply_all ops (abs t).
-Proof.
-  intros Hpp ops t t' Hw H Hs. destruct (text_roundtrip Hpp ops t t' Hw H Hs) as (d & Hp & Ha).
-  exists d. split; [exact Hp|]. split; [exact Ha|]. rewrite Ha. exact (history_content_all ops t t' H).
-Qed.
-Print Assumptions C08_text_roundtrip.
+            /\ data_of (abs (doc_root d)) = text_data (abs t')
+            /\ data_of (abs (doc_root d)) = text_data (spec_apply_all ops (abs t)).
+Proof. exact text_roundtrip_closed. Qed.
+Print Assumptions C08_text_roundtrip_closed.
+
+(* ... in storage order when the reference's result stores no key/value line behind a sub-table *)
+Theorem C08_text_roundtrip_exact_order : forall ops t t',
+  WF t -> apply_seq ops t = Some t' -> history_side ops t = true ->
+  lines_first (spec_apply_all ops (abs t)) = true ->
+  exists d, parse_document (display_document t' REmpty) = POk d
+            /\ data_of (abs (doc_root d)) = data_of (abs t')
+            /\ data_of (abs (doc_root d)) = data_of (spec_apply_all ops (abs t)).
+Proof. exact text_roundtrip_exact_order. Qed.
+Print Assumptions C08_text_roundtrip_exact_order.
+
+(* documents that were PARSED first (DocumentMut from text): well-formedness of the start is a theorem
+   (parse_WF), but for the order of the section positions; the document's own trailing text is kept *)
+Theorem C08_parsed_text_roundtrip : forall s d0 t tr ops t',
+  parse_document s = POk d0 -> tbl_despan s (doc_root d0) = Some t -> raw_despan s (doc_trailing d0) = Some tr ->
+  order_ok t ->
+  apply_seq ops t = Some t' -> history_side ops t = true ->
+  exists d, parse_document (display_document t' tr) = POk d
+            /\ abs_doc d = abs_doc_of t'
+            /\ data_of (abs (doc_root d)) = text_data (abs t')
+            /\ data_of (abs (doc_root d)) = text_data (spec_apply_all ops (abs t)).
+Proof. exact parsed_text_roundtrip. Qed.
+Print Assumptions C08_parsed_text_roundtrip.
+
+(* ... and with no premise on the order at all: the side conditions are `wf_side` and `lim_side` only, and the
+   definition rules of Spec/Defs.v are run on the sections of the RESULT in the order Display prints them
+   (`replay_ok t'`, a closed boolean) *)
+Theorem C08_history_slots : forall ops t t',
+  (t_dotted t = false /\ tbl_wf true t /\ tbl_lim 0 0 t) -> apply_seq ops t = Some t' -> history_slot_side ops t = true ->
+  t_dotted t' = false /\ tbl_wf true t' /\ tbl_lim 0 0 t'.
+Proof. exact history_slots. Qed.
+Print Assumptions C08_history_slots.
+
+Theorem C08_parsed_text_roundtrip_any_order : forall s d0 t tr ops t',
+  parse_document s = POk d0 -> tbl_despan s (doc_root d0) = Some t -> raw_despan s (doc_trailing d0) = Some tr ->
+  apply_seq ops t = Some t' -> history_slot_side ops t = true -> replay_ok t' = true ->
+  exists d, parse_document (display_document t' tr) = POk d
+            /\ abs_doc d = abs_doc_of t'
+            /\ data_of (abs (doc_root d)) = text_data (abs t')
+            /\ data_of (abs (doc_root d)) = text_data (spec_apply_all ops (abs t)).
+Proof. exact parsed_text_roundtrip_any_order. Qed.
+Print Assumptions C08_parsed_text_roundtrip_any_order.
+
+(* `replay_ok` holds when sections are interleaved (`[a]`, `[b]`, `[a.c]`: ex_roundtrip_any_order).  It fails when a
+   sub-table is printed in front of a key/value line of its parent (`[a.b]` in front of `[a]`): the keys of the
+   re-parsed table are then in the order of first mention in the text, which `abs` cannot know (it does not keep
+   positions).  Then the same data as UNORDERED tables: `same_data a b := dcanon (DTab a) = dcanon (DTab b)`,
+   `dcanon` sorting the entries of every table by key *)
+Theorem C08_parsed_text_roundtrip_unordered : forall s d0 t tr ops t',
+  parse_document s = POk d0 -> tbl_despan s (doc_root d0) = Some t -> raw_despan s (doc_trailing d0) = Some tr ->
+  apply_seq ops t = Some t' -> history_slot_side ops t = true -> replay_unordered_ok t' = true ->
+  exists d, parse_document (display_document t' tr) = POk d
+            /\ same_data (data_of (abs (doc_root d))) (text_data (abs t'))
+            /\ same_data (data_of (abs (doc_root d))) (text_data (spec_apply_all ops (abs t))).
+Proof. exact parsed_text_roundtrip_unordered. Qed.
+Print Assumptions C08_parsed_text_roundtrip_unordered.
 
 (* ---- the side conditions are satisfiable, and each is needed ---- *)
 Definition root_of (s : bytes) : option tbl :=
@@ -493,3 +569,61 @@ Example ex_side_payload :
   on_root ex_src (wf_side (OInsert [] (str "c") (PVStr [xff]))) true = false
   /\ on_root ex_src (wf_side (OInsert [] [xff] (PVInt 1))) true = false.
 Proof. vm_compute. split; reflexivity. Qed.
+
+(* ---- the closed round trip on examples (closed booleans) ---- *)
+Definition reparse_cmp (s : bytes) (ops : list op) (f : tbl -> tbl -> bool) : bool :=
+  match root_of s with
+  | Some r => match apply_seq ops r with
+              | Some r' => match parse_document (display_document r' REmpty) with
+                           | POk d => f (doc_root d) r'
+                           | _ => false
+                           end
+              | None => false
+              end
+  | None => false
+  end.
+Definition data_eqb (a b : list (bytes * dval)) : bool := dval_eqb (DTab a) (DTab b).
+
+(* `abs (doc_root d) = abs t'` is false: the value `c`, inserted behind `[t]`, parses back in front of it.  The start
+   is well-formed, the side conditions hold, the data in storage order differ, the data lines-first agree *)
+Example ex_roundtrip_exact_refuted :
+  on_root ex_src wf_b false
+  && on_root ex_src (history_side [OInsert [] (str "c") (PVInt 5)]) false
+  && reparse_cmp ex_src [OInsert [] (str "c") (PVInt 5)]
+       (fun r r' => negb (data_eqb (data_of (abs r)) (data_of (abs r')))
+                    && data_eqb (data_of (abs r)) (text_data (abs r'))
+                    && negb (lines_first (abs r')))
+  = true.
+Proof. vm_compute. reflexivity. Qed.
+
+(* an edit that stores nothing behind a sub-table: storage order itself comes back *)
+Example ex_roundtrip_exact_order :
+  reparse_cmp ex_src [ORemove [] (str "a"); OArrPush [SKey (str "b")] (PVBool true); OInsert [SKey (str "t")] (str "c") (PVInt 5)]
+       (fun r r' => lines_first (abs r') && data_eqb (data_of (abs r)) (data_of (abs r')))
+  = true.
+Proof. vm_compute. reflexivity. Qed.
+
+(* interleaved sections (`[a]`, `[b]`, `[a.c]`): order_ok fails, the replay check of the edited tree holds *)
+Definition ex_ops2 : list op := [OInsert [SKey (str "a")] (str "z") (PVInt 3); OInsertTable [] (str "n")].
+Example ex_roundtrip_any_order :
+  on_root (str "[a]
+x = 1
+[b]
+y = 2
+[a.c]
+w = 3
+") (fun r => negb (order_b r) && history_slot_side ex_ops2 r
+             && match apply_seq ex_ops2 r with Some r' => replay_ok r' | None => false end) false
+  = true.
+Proof. vm_compute. reflexivity. Qed.
+
+(* a sub-table in front of its parent: the strict check fails, the unordered one holds *)
+Example ex_roundtrip_unordered :
+  on_root (str "[a.b]
+x = 1
+[a]
+y = 2
+") (fun r => negb (order_b r) && history_slot_side ex_ops2 r
+             && match apply_seq ex_ops2 r with Some r' => negb (replay_ok r') && replay_unordered_ok r' | None => false end) false
+  = true.
+Proof. vm_compute. reflexivity. Qed.
